@@ -34,6 +34,13 @@ pub struct Cfg {
     /// gates remember every waker they are given and wake them all (otherwise an await keeps only its latest waker, like a oneshot)
     #[serde(default)]
     pub gate_keep_all: bool,
+    /// C14: when a value is destroyed while accepted work is pending, record it and keep running so that a later
+    /// use of the freed value is observed as such
+    #[serde(default)]
+    pub keep_going_after_early_destroy: bool,
+    /// C17: despawn while pool jobs may still be running (gates are opened first, so they all finish)
+    #[serde(default)]
+    pub despawn_without_quiescence: bool,
 }
 
 #[derive(Clone, Copy, Debug, PartialEq, Eq, Serialize, Deserialize)]
